@@ -248,6 +248,18 @@ def check_unary(h, name, args, kwargs, has_inplace, seed, twin=False):
         except Exception:  # noqa
             break
         sR = [snap(x) for x in R]
+        R2 = sR2 = None
+        try:
+            if mname not in ('apply', 'assign-longer', 'iadd'):
+                raise LookupError
+            R2 = flat(do_unary(src, name, args, kwargs, seed))
+            sR2 = [snap(y) for y in R2]
+            if sR2 != sR:
+                bad.append(('result-aliased', '%s called twice on one unchanged receiver gives different results: %r / %r'
+                            % (what, [q[1:3] for q in sR], [q[1:3] for q in sR2])))
+                break
+        except Exception:  # noqa
+            R2 = None
         if not twin:
             try:
                 mut(v)
@@ -275,10 +287,15 @@ def check_unary(h, name, args, kwargs, has_inplace, seed, twin=False):
                 break
             others = [snap(y) for i2, y in enumerate(R) if i2 != k]
             want = [s for i2, s in enumerate(sR) if i2 != k]
-            if others != want and not any(y is x for i2, y in enumerate(R) if i2 != k):
+            if others != want:
                 bad.append(('result-aliased', 'after %s, mutating result %d (%s) changed another result' % (what, k, mname)))
                 break
             sR[k] = snap(x)
+            # ... nor what the same call returns the next time (two values derived from one source)
+            if R2 is not None and [snap(y) for y in R2] != sR2:
+                bad.append(('result-aliased', 'after %s, mutating result %d (%s) of one call changed the result of a second, '
+                            'identical call' % (what, k, mname)))
+                break
         if bad:
             break
     return bad
